@@ -5,7 +5,12 @@ HERE = os.path.dirname(os.path.abspath(__file__))
 
 
 def harness_files(tier, seed):
-    return [os.path.join(HERE, 'hC04.py')]
+    files = [os.path.join(HERE, 'hC04.py')]
+    if tier == 'thorough':
+        # the 24 depth-3 type expressions drawn from the grammar with VERIF_SEED (props/gen_types.py), under this property's oracle
+        os.environ['VERIF_SEED'] = str(seed)
+        files.append(os.path.join(HERE, 'hC04g.py'))
+    return files
 
 
 META = dict(
@@ -13,7 +18,7 @@ META = dict(
            "int, str len<=1, None, tuple, bytes, float, [[]]) at 9 positions (top, element, tag, key, body, field), top mapping "
            "optionally a non-dict Mapping; hooks/predicates raising one of 9 exception classes",
     configs="49 converter instances x entry points from_data/convert; 11 adversarial target types; 5 hook-bearing types; "
-            "type building: enumerated lists of documented and unsupported types",
+            "type building: enumerated lists of documented and unsupported types + thorough tier: 24 type expressions of nesting depth 3 drawn from the grammar with VERIF_SEED (props/gen_types.py), type-directed values with 3 symbolic leaf slots, under this property's oracle",
     stubs=["user predicate / __post_init__ raise under a selector (they are inputs of the property)"],
     outside=["from_json/from_yaml entry points (C19's reason)", "MemoryError/KeyboardInterrupt",
              "exceptions from __eq__/__hash__ of hostile objects inside data"],
